@@ -45,7 +45,6 @@ pub struct Interpreter<'a, T: IO> {
     loops: Vec<LoopEnv>,
     return_addrs: Vec<usize>,
     scopes: Vec<HashMap<String, Option<DataType>>>,
-    previous_if_was_executed: Vec<bool>,
     lists: Vec<Vec<DataType>>,
     // free list tracks which list indexes are free to be re-used for allocating as list datatype
     free_lists: Vec<usize>,
@@ -83,7 +82,6 @@ impl<'a, T: 'a + IO> Interpreter<'a, T> {
             loops: Vec::new(),
             return_addrs: Vec::new(),
             scopes: vec![root_scope],
-            previous_if_was_executed: Vec::new(),
             lists: Vec::new(),
             free_lists: Vec::new(),
             nameless_records: Vec::new(),
@@ -731,11 +729,12 @@ impl<'a, T: 'a + IO> Interpreter<'a, T> {
 
         if let DataType::Bool(condition) = if_condition_expr {
             if condition == false {
-                self.previous_if_was_executed.push(false);
                 // condition expression of if statement is false so skipping next block statement
-                self.skip_block_in_if()?;
-            } else {
-                self.previous_if_was_executed.push(true);
+                self.skip_block()?;
+                // chain continues with else, consuming it so that next if or block gets interpreted
+                if let Some(parser::Stmt::Else(_, _)) = self.statements.get(self.current) {
+                    self.current += 1;
+                }
             }
         } else {
             return Err(RuntimeError(line, file_name,
@@ -746,16 +745,23 @@ impl<'a, T: 'a + IO> Interpreter<'a, T> {
     }
 
     fn interpret_else_stmt(&mut self) -> Result<(), PakhiErr> {
-        assert!(!self.previous_if_was_executed.is_empty());
+        // else statement is reached only after a previous branch of this if-else chain was executed
+        // (a false if consumes following else itself), so every remaining branch is skipped
 
         // consuming else token
         self.current += 1;
 
-        let last_if_condition_index = self.previous_if_was_executed.len() - 1;
-        if self.previous_if_was_executed[last_if_condition_index] {
-            self.skip_block_in_if()?;
+        loop {
+            if let Some(parser::Stmt::If(_, _, _)) = self.statements.get(self.current) {
+                self.current += 1;
+            }
+            self.skip_block()?;
+            if let Some(parser::Stmt::Else(_, _)) = self.statements.get(self.current) {
+                self.current += 1;
+            } else {
+                break;
+            }
         }
-        self.previous_if_was_executed.pop();
 
         Ok(())
     }
@@ -787,17 +793,6 @@ impl<'a, T: 'a + IO> Interpreter<'a, T> {
 
             // skipping statements in block
             self.current += 1;
-        }
-
-        Ok(())
-    }
-
-    fn skip_block_in_if(&mut self) -> Result<(), PakhiErr> {
-        self.skip_block()?;
-
-        match self.statements[self.current] {
-            parser::Stmt::Else(_, _) => {},
-            _ => { self.previous_if_was_executed.pop(); },
         }
 
         Ok(())
